@@ -34,16 +34,14 @@ UNIT = Unit(
         Raw(path="contracts/liftty.shim.rs"),
         Fn(file=L, name="get_ty", container="LiftExpr", ret="r", rewrites=[(re.compile(r"=> ty\.clone\(\),"), "=> ty.vclone(),", "*")],
            contract="ensures r == lift_ty(*self),", obligation="get_ty returns the carried type"),
-        Fn(file=L, name="transform_expr", rename="lift_tuple", ret="r", attrs="#[verifier::loop_isolation(false)]", rules=["attrs", ("strip", "tast::"), "iter_map_collect"],
+        Fn(file=L, name="transform_expr", rename="lift_tuple", ret="r", attrs="#[verifier::loop_isolation(false)]", rules=["attrs", ("strip", "tast::"), "iter_any", "iter_map_collect"],
            cut_from=re.compile(r"MonoExpr::ETuple \{ items, ty(?:: _)? \} => \{"), cut_inside=True, cut_before="@block-end", cut_tail="",
            sig="fn lift_tuple(state: &mut State, scope: &mut Scope, items: Vec<MonoExpr>, ty: Ty) -> LiftExpr",
            pre_rewrites=[INTO_MAP],
            rewrites=[VC, (re.compile(r"let typs = \{ let mut __mo0 = Vec::new\(\);"), "let typs = { let mut __mo0: Vec<Ty> = Vec::new();", "*")],
            obligation="the lifted tuple's type is TTuple of the LIFTED items' types, in order",
            contract="ensures r matches LiftExpr::ETuple { items: li, ty } && (ty matches Ty::TTuple { typs } && item_tys(li@, typs@)),",
-           loop_fn=lambda k, header, kw: ("invariant true,\ndecreases __src@.len()," if "__src.len()" in header else
-                                          ("invariant __mi0 <= items@.len(), __mo0@.len() == __mi0, forall|i: int| 0 <= i < __mi0 ==> #[trigger] __mo0@[i] == lift_ty(items@[i]),\n"
-                                           "decreases items@.len() - __mi0," if "__mi0 <" in header else None))),
+           loop_fn=lambda k, header, kw: TUPLE_LOOPS(header)),
         Fn(file=L, name="transform_expr", rename="lift_proj", ret="r", rules=["attrs", ("strip", "tast::")],
            cut_from="MonoExpr::EProj { tuple, index, ty } => {", cut_inside=True, cut_before="@block-end", cut_tail="",
            sig="fn lift_proj(state: &mut State, scope: &mut Scope, tuple: Box<MonoExpr>, index: usize, ty: Ty) -> LiftExpr",
@@ -118,3 +116,18 @@ UNIT = Unit(
             r matches LiftExpr::ELet { name: n, value: v, body: b, ty } && n == name && ty == lift_ty(*b),"""),
     ],
 )
+
+
+
+def TUPLE_LOOPS(header):
+    if "__src.len()" in header:
+        return "invariant true,\ndecreases __src@.len(),"
+    mt = re.search(r"while\s+__mi(\d+)\s*<\s*items", header)
+    if mt:
+        k = mt.group(1)
+        return (f"invariant __mi{k} <= items@.len(), __mo{k}@.len() == __mi{k}, forall|i: int| 0 <= i < __mi{k} ==> #[trigger] __mo{k}@[i] == lift_ty(items@[i]),\n"
+                f"decreases items@.len() - __mi{k},")
+    mt = re.search(r"while\s+__i(\d+)\s*<\s*(\w+)\.len\(\)", header)
+    if mt:      # a `.iter().any(..)` over the items (rule iter_any): its answer is not specified — whatever it decides, the contract must hold
+        return f"invariant __i{mt.group(1)} <= {mt.group(2)}@.len(),\ndecreases {mt.group(2)}@.len() - __i{mt.group(1)},"
+    return None
